@@ -13,6 +13,7 @@ import re
 import shutil
 import subprocess
 import tempfile
+import time
 
 from . import common
 
@@ -75,19 +76,54 @@ def static_part(ctx, facts):
                % (len(facts["iosafeSrcs"]), len(facts["gateSrcs"]), len(facts["S"]), len(facts["edges"]), len(facts["holes"])))
 
 
-def run_harness(ctx, h, tier, sentinel, filt=None, strace_log=None):
-    args = ["run", tier, sentinel] + ([filt] if filt else [])
-    cmd = [h] + args
-    if strace_log:
-        cmd = ["strace", "-f", "-qq", "-e", "trace=%file,%process,%network", "-o", strace_log] + cmd
+def run_harness(ctx, h, tier, sentinel, filt=None, strace_log=None, shards=1, budget=None, extra_env=None):
+    """Run the harness, sharded over `shards` worker processes (functions are dealt out modulo the number of workers,
+    each worker has its own sentinel directory).  `budget` seconds after its start a worker stops STARTING cases and
+    reports how much of the planned enumeration it did (a slow machine costs coverage, never an alarm); a single case
+    that does not return within 90 s makes the worker report `hang …` and exit 3 (that IS reported)."""
     env = dict(os.environ)
     env.setdefault("GOMEMLIMIT", "4GiB")
-    env.setdefault("GOMAXPROCS", "4")
-    p = subprocess.run(cmd, stdout=subprocess.PIPE, stderr=subprocess.PIPE, text=True, errors="replace",
-                       timeout=3000 if tier == "thorough" else 600, env=env, stdin=subprocess.DEVNULL)
-    if p.returncode != 0:
-        raise common.BuildError("c08 harness failed rc=%d: %s" % (p.returncode, p.stderr[-2000:]))
-    return p.stdout.split("\n")[:-1]
+    env.setdefault("GOMAXPROCS", "4" if shards == 1 else "2")
+    if budget:
+        env["C08_BUDGET_S"] = str(int(budget))
+    env.update(extra_env or {})
+    procs = []
+    for i in range(shards):
+        sdir = sentinel if shards == 1 else os.path.join(sentinel, "w%d" % i)
+        cmd = [h, "run", tier, sdir] + ([filt] if filt else [])
+        if strace_log:
+            cmd = ["strace", "-f", "-qq", "-e", "trace=%file,%process,%network", "-o", strace_log] + cmd
+        e = dict(env)
+        if shards > 1:
+            e["C08_SHARD"] = "%d/%d" % (i, shards)
+        # (output goes to files: a pipe read only after the previous worker has finished would stall the writer)
+        fo = tempfile.TemporaryFile(mode="w+", errors="replace")
+        fe = tempfile.TemporaryFile(mode="w+", errors="replace")
+        procs.append((subprocess.Popen(cmd, stdout=fo, stderr=fe, env=e, stdin=subprocess.DEVNULL), fo, fe))
+    lines = []
+    t_end = time.time() + (budget or (3000 if tier == "thorough" else 600)) * 2 + 600
+    for i, (p, fo, fe) in enumerate(procs):
+        timed_out = False
+        try:
+            p.wait(timeout=max(1, t_end - time.time()))
+        except subprocess.TimeoutExpired:
+            p.kill()
+            p.wait()
+            timed_out = True
+        fo.seek(0)
+        fe.seek(0)
+        out, err = fo.read(), fe.read()
+        fo.close()
+        fe.close()
+        if timed_out:
+            out += "\nhang worker-%d-did-not-finish\n" % i
+        if p.returncode not in (0, 3, -9):
+            for q, _, _ in procs:
+                if q.poll() is None:
+                    q.kill()
+            raise common.BuildError("c08 harness failed rc=%s: %s" % (p.returncode, err[-2000:]))
+        lines += out.split("\n")
+    return [l for l in lines if l]
 
 
 def dynamic_part(ctx, lines, facts):
@@ -95,6 +131,7 @@ def dynamic_part(ctx, lines, facts):
     cases = []
     thens = []
     nests = []
+    cov = {"planned": 0, "done": 0, "exhausted": 0, "workers": 0}
     for l in lines:
         p = l.split(" ")
         if p[0] == "fn":
@@ -105,9 +142,27 @@ def dynamic_part(ctx, lines, facts):
             thens.append(p)
         elif p[0] == "nest":
             nests.append(p)
+        elif p[0] == "coverage":
+            cov["planned"] += int(p[1])
+            cov["done"] += int(p[2])
+            cov["exhausted"] += 1 if p[3] == "true" else 0
+            cov["workers"] += 1
+        elif p[0] == "hang":
+            what = " ".join(p[1:])
+            ctx.violation("hang:" + " ".join(short(x) for x in p[1:4]),
+                          "a single call did not return within 90 s (a hang, not slowness: the worker gave up): " + what,
+                          "c08 replay %s\n" % what)
         elif p[0] == "nondeterministic-enumeration":
             ctx.obligations.append({"name": "harness:enumeration-deterministic", "ok": False, "axioms": [], "note": l})
     ctx.extra["go_functions_enumerated"] = len(fns)
+    ctx.extra["enumeration_planned_cases"] = cov["planned"]
+    ctx.extra["enumeration_done_cases"] = cov["done"]
+    ctx.extra["workers"] = cov["workers"]
+    ctx.extra["workers_out_of_time_budget"] = cov["exhausted"]
+    if cov["exhausted"]:
+        ctx.log("time budget reached in %d of %d workers: %d of %d planned cases done" % (cov["exhausted"], cov["workers"], cov["done"], cov["planned"]))
+    ctx.obligations.append({"name": "enumeration_ran", "ok": cov["done"] >= 5000,
+                            "axioms": [], "note": "%d of %d planned cases run (a slow machine shortens the enumeration, see workers_out_of_time_budget; only a run of fewer than 5000 cases does not count)" % (cov["done"], cov["planned"])})
     # level B for the extractor: the flags the real runtime holds are the flags the regenerated table says
     keys = sorted(fns)
     ans = common.run_oracle("c08", ["q %s %s 0 %d" % (table_sym(k[0]), k[1], fns[k]["flags"]) for k in keys])
@@ -149,6 +204,23 @@ def dynamic_part(ctx, lines, facts):
         ctx.count("via:" + f["via"])
         if outcome == "skipped":
             ctx.count("skipped-dangerous")
+            continue
+        if outcome == "notrun":
+            ctx.count("edge-callback-not-run:" + sp)  # (a finaliser that never ran: nothing to compare)
+            if effect != "none" and Fi & 4:
+                ctx.violation("iosafe-effect:%s:%s" % (short(sym), effect.split(":")[0]),
+                              "in a context requiring iosafe, %s reached the outside: %s (%s)" % (where, effect, sp),
+                              "c08 replay %s %s %s %s %s\nobserved %s effect=%s\n" % (sym, nameh, F, sp, tup, outcome, effect))
+            continue
+        if sp == "gc":
+            # a finaliser set inside the context is code of the context: it must be subject to the context's flags
+            # whenever it runs.  What it does when it runs after the context has ended is keyed on its own.
+            refused_ok = (not pr.startswith("refuse")) or outcome == "missing:" + pr.split(" ")[1]
+            if (Fi & 4 and effect != "none") or (not refused_ok):
+                ctx.violation("iosafe-effect-after-context:gc" if (Fi & 4 and effect != "none") else "gate-after-context:gc",
+                              "a __gc finaliser set by code confined to callcontext{flags=%s} ran after the context had ended and called %s "
+                              "unrestricted: %s, effect %s (model inside the context: %s)" % (F, where, outcome, effect, pr),
+                              "c08 replay %s %s %s %s %s\nobserved %s effect=%s\nexpected %s\n" % (sym, nameh, F, sp, tup, outcome, effect, pr))
             continue
         if Fi == 0 and effect.startswith("fs"):
             seen_fs = True
@@ -201,7 +273,135 @@ def dynamic_part(ctx, lines, facts):
         ctx.sample("%s %s F=%s %s args=%s -> %s effect=%s (model: %s)" % (short(c[1]), unhex(c[2]), c[3], c[4], unhex(c[5]), c[6], c[7], pred[(c[1], c[2], c[3])]))
 
 
+def write_effectful(facts):
+    """Runtime symbols of the registered functions from which the call graph reaches an operating-system sink or a
+    safeio gate (not through the Lua-call gate GoCont.RunInThread): the functions for which the harness also tries the
+    calls made from the edge of a context (close handlers, message handlers, callbacks, finalisers)."""
+    nodes = facts["nodes"]
+    succ = {}
+    for u, v in facts["edges"]:
+        succ.setdefault(u, []).append(v)
+    runin = {n["id"] for n in nodes if n["gate"] and n["name"].endswith("GoCont).RunInThread")}
+    out = set()
+    for r in facts["regs"]:
+        seen, work, hit = {r["node"]}, [r["node"]], False
+        while work and not hit:
+            u = work.pop()
+            for v in succ.get(u, ()):
+                if v in seen or v in runin:
+                    continue
+                seen.add(v)
+                if nodes[v]["sink"] or nodes[v]["gate"]:
+                    hit = True
+                    break
+                work.append(v)
+        if hit:
+            out.add(r["rtsym"])
+    path = os.path.join(common.BUILD, "c08-effectful.txt")
+    with open(path, "w") as f:
+        f.write("\n".join(sorted(out)) + "\n")
+    return path
+
+
+CLI_SCRIPT = """
+local D = ...
+local function try(f, ...) return pcall(f, ...) end
+try(function() local f = io.open(D .. "/cli-new.txt", "w") if f then f:write("x") f:close() end end)
+try(function() os.remove(D .. "/victim.txt") end)
+try(function() os.rename(D .. "/data.txt", D .. "/renamed.txt") end)
+try(function() local p = io.popen("touch " .. D .. "/spawned") if p then p:close() end end)
+try(function() local f = io.open(D .. "/script.lua") if f then io.stdout:write(f:read("a")) f:close() end end)
+try(function() for l in io.lines(D .. "/script.lua") do io.stdout:write(l) end end)
+try(function() dofile(D .. "/script.lua") end)
+try(function() local f = loadfile(D .. "/script.lua") if f then io.stdout:write("LOADED-", tostring(f())) end end)
+try(function() local f = io.tmpfile() if f then f:write("t") end end)
+try(function() local n = os.tmpname() end)
+try(function() io.output(D .. "/cli-out.txt") io.write("o") io.close() end)
+"""
+CLI_MARKER = "VERIF-CLI-MARKER-51c2"
+
+
+def cli_part(ctx):
+    """The golua command line is the one embedding of the mechanism that ships: `golua -flags iosafe[,…] script.lua`
+    must confine the script whatever the order of the flags and whether or not -cpulimit / -memlimit are given."""
+    # one binary per tree (VERIF_REPO): `go build` does not relink an up-to-date output, which is most of the cost
+    import hashlib
+    os.makedirs(common.BIN, exist_ok=True)
+    out = os.path.join(common.BIN, "golua-cli-" + hashlib.sha1(os.path.abspath(common.REPO).encode()).hexdigest()[:8])
+    with common.Lock("go-golua-cli"):
+        rc, o = common.sh(["go", "build", "-ldflags=" + common.LDFLAGS, "-o", out, "."], cwd=common.REPO, env=common.GOENV, timeout=900)
+    if rc != 0:
+        raise common.BuildError("building the golua command failed:\n" + o[-2000:])
+    work = tempfile.mkdtemp(prefix="c08-cli-")
+    try:
+        configs = []
+        for flags in ("iosafe", "iosafe,cpusafe", "cpusafe,iosafe", "memsafe,iosafe,timesafe"):
+            for lim in ([], ["-cpulimit", "100000000"], ["-memlimit", "1000000000"], ["-cpulimit", "100000000", "-memlimit", "1000000000"]):
+                configs.append((flags, lim))
+        configs = configs[:12] + [(None, []), ("cpusafe", []), ("cpusafe,memsafe", ["-cpulimit", "100000000"])]
+        import concurrent.futures
+        import time as _t
+        base = {"data.txt": "data\n", "victim.txt": "victim\n", "script.lua": "io.stdout:write('%s') return '%s'\n" % (CLI_MARKER, CLI_MARKER)}
+
+        def one(i):
+            flags, lim = configs[i]
+            s = os.path.join(work, "s%d" % i)
+            os.makedirs(os.path.join(s, "tmp"))
+            for n, c in base.items():
+                open(os.path.join(s, n), "w").write(c)
+            script = os.path.join(work, "try%d.lua" % i)
+            open(script, "w").write("local D = %r\n" % s + CLI_SCRIPT.replace("local D = ...\n", ""))
+            args = [out] + (["-flags", flags] if flags else []) + lim + [script]
+            env = dict(os.environ, TMPDIR=os.path.join(s, "tmp"))
+            p = subprocess.run(args, stdout=subprocess.PIPE, stderr=subprocess.PIPE, text=True, errors="replace", timeout=120, env=env,
+                               stdin=subprocess.DEVNULL, cwd=s)
+            _t.sleep(0.05)  # (the script waits for the child it starts; this is for a child left behind by a failing script)
+            effects = []
+            now = {}
+            for d, _, fs in os.walk(s):
+                for f in fs:
+                    rel = os.path.relpath(os.path.join(d, f), s)
+                    now[rel] = open(os.path.join(d, f), errors="replace").read()
+            for n in sorted(set(now) | set(base)):
+                if n not in base:
+                    effects.append("created:" + ("tmp/*" if n.startswith("tmp/") else n))
+                elif n not in now:
+                    effects.append("removed:" + n)
+                elif now[n] != base[n]:
+                    effects.append("modified:" + n)
+            if CLI_MARKER in p.stdout or "LOADED-" in p.stdout:
+                effects.append("read:script.lua")
+            return flags, lim, effects, p.stderr
+
+        with concurrent.futures.ThreadPoolExecutor(max_workers=5) as ex:
+            results = list(ex.map(one, range(len(configs))))
+        live = False
+        for flags, lim, effects, stderr in results:
+            label = "%s %s" % (flags or "(no flags)", " ".join(lim) or "(no limit)")
+            ctx.case("cli " + label, True)
+            ctx.count("cli:" + ("confined" if flags and "iosafe" in flags.split(",") else "free"))
+            if flags and "iosafe" in flags.split(","):
+                for e in sorted(set(effects)):
+                    kind = e.split(":")[0]
+                    ctx.violation("cli:%s:%s:%s" % (flags, "+".join(x.lstrip("-") for x in lim[::2]) or "nolimit", kind),
+                                  "`golua -flags %s %s script.lua`: the script reached the outside although iosafe is required: %s"
+                                  % (flags, " ".join(lim), ", ".join(sorted(set(effects)))),
+                                  "c08 cli\ngolua -flags %s %s try.lua\neffects: %s\nstderr: %s\n" % (flags, " ".join(lim), effects, stderr[-300:]))
+            elif len(effects) >= 4:
+                live = True
+            if len(ctx.samples) < 12:
+                ctx.sample("golua %s -> %s" % (label, effects or "no effect"))
+        ctx.obligations.append({"name": "cli_effect_detection_live", "ok": live, "axioms": [],
+                                "note": "without iosafe among -flags the same script creates, removes, reads files and spawns a process, and the check sees it"})
+    finally:
+        shutil.rmtree(work, ignore_errors=True)
+
+
 MARK = re.compile(r'"/\.c08/(case|end|nest)/(\d+)/([^"]*)"')
+FILE_CALLS = {"open", "openat", "openat2", "creat", "unlink", "unlinkat", "rename", "renameat", "renameat2", "mkdir", "mkdirat", "rmdir",
+              "stat", "lstat", "newfstatat", "statx", "access", "faccessat", "faccessat2", "readlink", "readlinkat", "chdir", "truncate",
+              "symlink", "symlinkat", "link", "linkat", "chmod", "fchmodat", "chown", "fchownat", "utimensat", "execve"}
+REL_PATH = re.compile(r'\((?:AT_FDCWD, )?"(?!/)[^"]+"')
 SENTINEL_NAMES = ("data.txt", "victim.txt", "script.lua", "new.txt", "renamed.txt", "spawned", "/sub", "/tmp/", "/cwd/")
 
 
@@ -216,7 +416,9 @@ def strace_part(ctx, h, sentinel):
     log = os.path.join(common.BUILD, "c08.strace")
     os.environ["C08_MARKERS"] = "1"
     try:
-        run_harness(ctx, h, "quick", sentinel, strace_log=log)
+        # a sample: the functions that can reach the outside at all (call graph), quick volume, one process
+        sdir = os.path.join(sentinel, "strace")
+        run_harness(ctx, h, "quick", sdir, strace_log=log, budget=240, extra_env={"C08_ONLY_EFFECTFUL": "1"})
     finally:
         del os.environ["C08_MARKERS"]
     cur = None  # (F, function) of the case in progress
@@ -244,8 +446,10 @@ def strace_part(ctx, h, sentinel):
                 execs_allowed += 1
         elif name in ("connect", "bind", "listen", "accept", "accept4", "sendto"):
             bad = "network"
-        elif sentinel in l and any(x in l for x in SENTINEL_NAMES) and name not in ("inotify_add_watch",):
+        elif sdir + "/" in l and ".barrier-" not in l and name not in ("inotify_add_watch",):
             bad = "file:" + name
+        elif name in FILE_CALLS and REL_PATH.search(l):
+            bad = "file:" + name  # a relative path: the working directory is inside the sentinel directory
         if bad and cur[0] & 4:
             ctx.violation("strace:%s:%s" % (cur[1].replace("github.com_arnodel_golua_", ""), bad.split(":")[0]),
                           "system call trace: while a context requiring iosafe (flags %d) was running %s, the process issued %s"
@@ -255,7 +459,7 @@ def strace_part(ctx, h, sentinel):
     ctx.extra["strace_cases_requiring_iosafe"] = n_iosafe
     ctx.extra["strace_execve_without_iosafe"] = execs_allowed
     ctx.count("strace-cases", n_cases)
-    ctx.obligations.append({"name": "strace_attribution_live", "ok": n_cases > 1000 and execs_allowed > 0, "axioms": [],
+    ctx.obligations.append({"name": "strace_attribution_live", "ok": n_cases > 500 and execs_allowed > 0, "axioms": [],
                             "note": "markers found in the trace and io.popen's /bin/sh seen where iosafe is not required"})
 
 
@@ -280,9 +484,12 @@ def run(ctx):
     ctx.log("oracle and harness built")
     sentinel = tempfile.mkdtemp(prefix="c08-sentinel-")
     try:
-        lines = run_harness(ctx, h, ctx.tier, sentinel)
+        os.environ["C08_EFFECTFUL"] = write_effectful(facts)
+        thorough = ctx.tier == "thorough"
+        lines = run_harness(ctx, h, ctx.tier, sentinel, shards=8 if thorough else 4, budget=420 if thorough else 150)
         ctx.log("harness ran: %d lines" % len(lines))
         dynamic_part(ctx, lines, facts)
+        cli_part(ctx)
         if ctx.tier == "thorough":
             strace_part(ctx, h, sentinel)
     finally:
@@ -291,6 +498,14 @@ def run(ctx):
 
 def replay(ctx, path):
     txt = open(path).read()
+    if "c08 cli" in txt:
+        print(txt)
+        c = common.Ctx("C08", "quick", 1)
+        cli_part(c)
+        for v in c.violations:
+            print("now:", v.key, "--", v.desc)
+        print("cli leg re-run: %d violation(s)" % len(c.violations))
+        return 0
     if "c08 static" in txt:
         facts = common.gofacts(ctx)
         nodes = facts["nodes"]
